@@ -3,14 +3,14 @@
 From ClapModel Require Import Base.Bytes Base.Machine.
 From ClapModel Require Import Parse.Cmd Parse.Build Parse.Valid Parse.Matcher Parse.Errors Parse.Validator Parse.Parser.
 From ClapModel Require Import ParseProofs.Safe ParseProofs.Invariant ParseProofs.Totality
-                              ParseProofs.TotalityMain ParseProofs.IndexInv Properties.C01.
+                              ParseProofs.TotalityMain ParseProofs.IndexInv ParseProofs.Provenance Properties.C01.
 From Coq Require Import ZArith Sorting.Sorted.
 Open Scope N_scope.
 
 (** The index discipline is closed under every primitive matcher operation the parser performs
     (bump of the counter, entry removal by overrides, start of an occurrence, value append, the
     combined "bump, append value, record the fresh counter value as its index"). *)
-Theorem C02_index_discipline_closed : closedP idx_inv.
+Theorem C02_index_discipline_closed : forall c, closedP c trivV idx_inv.
 Proof. exact idx_inv_closed. Qed.
 Print Assumptions C02_index_discipline_closed.
 
@@ -18,7 +18,7 @@ Print Assumptions C02_index_discipline_closed.
     distinct; no index reported twice (neither within one argument nor across arguments); every
     index at most the running counter; the indices of each argument strictly increasing. *)
 Theorem C02_level_indices : forall fuel c toks st0 st,
-  tree_ok fuel c -> G c idx_inv st0 -> get_matches_with fuel c toks st0 = ROk st ->
+  tree_ok fuel c -> G c idx_inv trivV st0 -> get_matches_with fuel c toks st0 = ROk st ->
   NoDup (map fst (mt_args (mt st)))
   /\ NoDup (all_indices (mt_args (mt st)))
   /\ Forall (fun i => i <= cur_idx st) (all_indices (mt_args (mt st)))
@@ -37,6 +37,28 @@ Theorem C02_indices_unique_increasing : forall c0 toks st,
   /\ Forall (fun p => StronglySorted N.lt (m_indices (snd p))) (mt_args (mt st)).
 Proof. exact root_indices. Qed.
 Print Assumptions C02_indices_unique_increasing.
+
+(** NO VALUE IS INVENTED.  For every valid definition a user can write (class [plain]) and every
+    token list, at the root level — and, second theorem, at every level of the recursion with that
+    level's own token list —, each raw value the matcher stores for an *argument* is a contiguous
+    piece ([sub_of]) of a token of the command line, of a value the definition declares (default,
+    default-missing, conditional default, environment value) or of an action literal ("true",
+    "false", a decimal count).  (Splitting happens only inside such a piece; nothing is synthesised.) *)
+Theorem C02_values_have_origin : forall c0 toks st,
+  plain c0 = true -> valid c0 = true ->
+  get_matches_with (S (S (depth (build_self c0)))) (build_self c0) toks ps_new = ROk st ->
+  forall i m, In (i, m) (mt_args (mt st)) -> (exists a, find_arg (build_self c0) i = Some a) ->
+  Forall (Forall (origin (build_self c0) toks)) (m_raw m).
+Proof. exact root_provenance. Qed.
+Print Assumptions C02_values_have_origin.
+
+Theorem C02_level_values_have_origin : forall fuel c toks st0 st,
+  tree_ok fuel c -> G c (prov c toks) (origin c toks) st0 ->
+  get_matches_with fuel c toks st0 = ROk st ->
+  forall i m, In (i, m) (mt_args (mt st)) -> (exists a, find_arg c i = Some a) ->
+  Forall (Forall (origin c toks)) (m_raw m).
+Proof. exact level_provenance. Qed.
+Print Assumptions C02_level_values_have_origin.
 
 (** Non-vacuity: on the command of C01's non-vacuity example the line `--aa v w x` parses and
     reports the indices 2 (value of --aa), 3 and 4 (the positional's values). *)
